@@ -196,6 +196,82 @@ def main() -> int:
         if graph != b:
             spec_failures.append({"suite": "tsql-combination", "script": script, "script_graph": graph[:1500], "combination_graph": b[:1500]})
 
+    # ---- T2-tsql: the model of the T-SQL batch splitter (Tree/TsqlSplit.v) on the parser's own FILE tree: the listed statements
+    # and the whole no-semicolon run (split through the raw-text cache, statement loop, assembly) against the implementation ----
+    from sqlfluff.core import FluffConfig, Linter
+    from sqllineage.core.parser.sqlfluff.analyzer import SqlFluffLineageAnalyzer
+    from sqllineage.core.parser.sqlfluff.models import SqlFluffColumn
+    import t2tie
+    from common import coq_string as _cs
+    tsql_scripts = [("insert into a select x from b\ninsert into c select y from d", None),
+                    ("insert into a select x from b;\ninsert into c select y from d;", None),
+                    ("insert into a select x from b\nGO\ninsert into c select y from a\nselect x from c\nGO", None),
+                    ("-- lead\ninsert into a select x from b /* k */ insert into c select y from d -- e", None),
+                    ("select a from t select a from t\nselect a  from t", None),
+                    ("insert into a select * from b\ninsert into c select * from a", {"<default>.b": ["p", "q"]}),
+                    ("insert into a select * from b\ninsert into a select * from b\ninsert into c select * from a", {"<default>.b": ["p", "q"]}),
+                    ("with c as (select x from b) insert into a select x from c\nselect x from a union all select y from d", None),
+                    ("create table #tmp (a int)\ninsert into #tmp select a from src\ninsert into dst select a from #tmp\ndrop table #tmp", None)]
+    seps = ["\n", " ", "\n\n", "\n-- c;\n", " /* ; */ ", ";\n", "\nGO\n"]
+    for _ in range(25 if quick else 300):
+        k = r.randint(1, 5)
+        body = [r.choice(tsql_pool) for _ in range(k)]
+        txt = body[0]
+        for b_ in body[1:]:
+            txt += r.choice(seps) + b_
+        tsql_scripts.append((txt, None if r.random() < 0.7 else {"<default>.s1": ["a", "z"], "<default>.t1": ["a", "b"]}))
+    an_t = SqlFluffLineageAnalyzer(".", "tsql")
+    exprs_l, exprs_s, impl_l, impl_s, kept = [], [], [], [], []
+    for sql, md in tsql_scripts:
+        try:
+            tree = Linter(config=FluffConfig.from_path(path=".", overrides={"dialect": "tsql"})).parse_string(sql.strip()).tree
+            term = t2tie.g_seg(tree)
+            il = "|".join(x.type + ":" + x.raw for x in an_t._list_specific_statement_segment(sql.strip()))
+        except Exception:      # noqa  - unparsable / unserialisable text: nothing to compare
+            continue
+        provider = DummyMetaDataProvider(md) if md else DummyMetaDataProvider()
+        scalar = {}
+        orig_sc = SqlFluffColumn._get_column_from_subquery
+
+        def rec_scalar(sub_segment, _o=orig_sc, _sc=scalar):
+            rr = _o(sub_segment)
+            _sc[sub_segment.raw] = [(c.column, c.qualifier) for c in rr]
+            return rr
+        SqlFluffColumn._get_column_from_subquery = staticmethod(rec_scalar)
+        try:
+            with implgraph.StatementTap() as tap, SQLLineageConfig(TSQL_NO_SEMICOLON=True):
+                lr = LineageRunner(sql, dialect="tsql", metadata_provider=provider)
+                try:
+                    lr._eval()
+                    hs = [h for _, h in tap.of_runner(lr)]
+                    sh = lr._sql_holder
+                    isc = "$".join(implgraph.s_graph(h.graph, canon=True) for h in hs) + "%" + "@".join([
+                        implgraph.s_graph(sh.graph, canon=True), implgraph.s_roles(sh),
+                        implgraph.s_paths(sh.get_column_lineage(True, False), True),
+                        implgraph.s_paths(sh.get_column_lineage(False, False), True),
+                        implgraph.s_paths(sh.get_column_lineage(True, True), True)])
+                except Exception as e:      # noqa
+                    isc = "ERR:" + type(e).__name__
+        finally:
+            SqlFluffColumn._get_column_from_subquery = orig_sc
+        base = "[" + "; ".join("(%s, [%s])" % (_cs(t), "; ".join(_cs(c) for c in cs)) for t, cs in (md or {}).items()) + "]"
+        kept.append((sql, md))
+        impl_l.append(il)
+        impl_s.append(isc)
+        exprs_l.append("show_list_statements (%s)" % term)
+        exprs_s.append("show_tsql_script (%s) false %s (%s)" % (t2tie.g_env("", "tsql", bool(provider), {}, scalar), base, term))
+    hdr = "From SV Require Import Tree.TsqlSplit.\nOpen Scope string_scope."
+    mod_l = coq_eval(hdr, exprs_l, shard=20)
+    mod_s = coq_eval(hdr, exprs_s, shard=10)
+    dist["tsql_file_trees"] = len(kept)
+    for (sql, md), il, ml, isc, ms in zip(kept, impl_l, mod_l, impl_s, mod_s):
+        ck.count()
+        ck.nontriv(("tsql-tree", sql))
+        if il != ml:
+            disagreements.append({"suite": "T2-tsql-statement-list", "script": sql, "impl": il[:1500], "model": ml[:1500]})
+        elif isc != ms and not isc.startswith("ERR:NetworkX"):
+            disagreements.append({"suite": "T2-tsql-script", "script": sql, "metadata": md, "impl": isc[:1500], "model": ms[:1500]})
+
     # ---- scripts of top-level queries (SELECT, UNION, SELECT ... INTO) and DML mixed, under dialects that have SELECT INTO ----
     q_pool = ["select a from t1", "select b into t3 from t2", "select c, d into t4 from t3 join t1 on 1 = 1", "insert into t5 select * from t4",
               "select a from t1 union all select b from t2", "select x.k from (select k from t6) x", "select * from t7",
